@@ -49,16 +49,21 @@ def main():
     notes = []
 
     # 1. constants
-    ok, msg = lib.regenerate_constants()
+    ok, msg, stale = lib.regenerate_constants()
     notes.append(msg)
     if not ok:
-        broken.append({"kind": "extractor", "name": "Generated/Constants.lean", "detail": msg})
+        mine = None if stale is None else sorted(set(stale) & lib.constants_used(mod.PROPS + list(getattr(mod, "MODELS", []))))
+        if mine is None or mine:
+            broken.append({"kind": "extractor", "name": "Generated/Constants.lean", "detail": msg + (f" (constants of this property kept from the last good extraction: {mine})" if mine else "")})
+        else:
+            notes.append("the stale constants are not used by this property's models or theorems")
+            ok = True
 
     # 2. build + audit
     build_ok = False
     axioms = {}
     if ok:
-        b_ok, out, dt = lib.lake_build()
+        b_ok, out, dt = lib.lake_build(tuple(mod.PROPS) + tuple(getattr(mod, "MODELS", [])) + ("driver",))
         notes.append(f"lake build: {'ok' if b_ok else 'FAILED'} in {dt:.1f}s")
         if not b_ok:
             errs = [l for l in out.splitlines() if "error" in l][:8]
